@@ -12,6 +12,7 @@ package main
 import (
 	"context"
 	"fmt"
+	"net"
 	"strings"
 	"time"
 
@@ -25,6 +26,10 @@ import (
 type Endpoint struct {
 	Key    []byte `json:"key"`
 	Target int    `json:"target"` // index of the sink
+	// Host spells the target's host: "" = 127.0.0.1, otherwise a host NAME
+	// that resolves to loopback ("localhost"). Canonical form everywhere
+	// else (monitor, model) is 127.0.0.1:<port of the sink>.
+	Host string `json:"host,omitempty"`
 }
 
 type Request struct {
@@ -45,6 +50,7 @@ type env struct {
 	nextID    uint64
 	totalAcks int
 	coq       []string
+	hostNames bool // "localhost" resolves to loopback here
 }
 
 func (e *env) target(i int) string { return fmt.Sprintf("127.0.0.1:%d", e.sinks[i].Port) }
@@ -53,7 +59,11 @@ func (e *env) runScenario(sc Scenario) {
 	c := e.c
 	a, cleanup, err := policy.NewAgent(func(cfg *config.Config) {
 		for _, ep := range sc.Endpoints {
-			cfg.Forward.Endpoints = append(cfg.Forward.Endpoints, config.ForwardEndpoint{Key: string(ep.Key), Target: e.target(ep.Target)})
+			tgt := e.target(ep.Target)
+			if ep.Host != "" && e.hostNames {
+				tgt = fmt.Sprintf("%s:%d", ep.Host, e.sinks[ep.Target].Port)
+			}
+			cfg.Forward.Endpoints = append(cfg.Forward.Endpoints, config.ForwardEndpoint{Key: string(ep.Key), Target: tgt})
 		}
 	})
 	if err != nil {
@@ -213,6 +223,17 @@ func variants(r *vh.Rand, k string) []byte {
 	if r.Chance(2, 5) {
 		return []byte(k)
 	}
+	if len(k) >= 15 && r.Chance(1, 2) {
+		// extend / cut a long key
+		if r.Chance(1, 4) {
+			return []byte(k[:len(k)-1])
+		}
+		n := r.Pick(1, 1, 2, 16, 64)
+		if len(k)+n > 247 {
+			n = 1
+		}
+		return []byte(k + strings.Repeat(string(k[len(k)-1]), n))
+	}
 	switch r.Intn(20) {
 	case 16:
 		return []byte(k + ":" + []string{"admin", "", "8080", k}[r.Intn(4)]) // colon-separated extension of a configured key
@@ -276,8 +297,16 @@ func genScenario(r *vh.Rand, idx int, nsinks int) Scenario {
 		default:
 			k = []byte(baseKeys[r.Intn(len(baseKeys))])
 		}
+		if r.Chance(1, 6) {
+			// a key at a length boundary
+			k = []byte(strings.Repeat("k", r.Pick(15, 16, 17, 31, 32, 33, 63, 64, 65, 127, 128, 129, 246, 247)))
+		}
 		ks = append(ks, k)
-		sc.Endpoints = append(sc.Endpoints, Endpoint{Key: k, Target: r.Intn(nsinks)})
+		ep := Endpoint{Key: k, Target: r.Intn(nsinks)}
+		if r.Chance(1, 3) {
+			ep.Host = "localhost"
+		}
+		sc.Endpoints = append(sc.Endpoints, ep)
 	}
 	nr := 4 + r.Intn(12)
 	for i := 0; i < nr; i++ {
@@ -311,21 +340,69 @@ func genScenario(r *vh.Rand, idx int, nsinks int) Scenario {
 	return sc
 }
 
+// boundaryScenario: one endpoint per length in lens (key = that many bytes,
+// all sharing a common prefix so that each is a prefix of the longer ones),
+// and for every configured key k requests for k itself, k cut by one byte and
+// k extended by 1, 2, ... bytes up to the longest key the wire can carry.
+func boundaryScenario(name string, lens []int) Scenario {
+	sc := Scenario{Name: name}
+	mk := func(n int) []byte {
+		k := make([]byte, n)
+		for i := range k {
+			k[i] = byte('a' + i%26)
+		}
+		return k
+	}
+	ask := func(k []byte) {
+		if len(k) <= 247 {
+			sc.Requests = append(sc.Requests, Request{Via: "dispatch", Addr: append([]byte("forward:"), k...)})
+		}
+		if len(k) <= 255 {
+			sc.Requests = append(sc.Requests, Request{Via: "direct", Addr: k})
+		}
+	}
+	for i, n := range lens {
+		sc.Endpoints = append(sc.Endpoints, Endpoint{Key: mk(n), Target: i % 4})
+	}
+	for _, n := range lens {
+		k := mk(n)
+		ask(k)
+		ask(k[:n-1])
+		for _, extra := range []int{1, 2, 3, 8, 64, 100, 183, 184, 191, 192} {
+			if n+extra <= 255 {
+				ext := append(append([]byte{}, k...), mk(n + extra)[n:]...)
+				ask(ext)
+				ask(append(append([]byte{}, k...), []byte(strings.Repeat("Z", extra))...))
+			}
+		}
+		ask(mk(247))
+		ask(mk(255))
+	}
+	return sc
+}
+
 func witnesses() []Scenario {
 	b := func(s string) []byte { return []byte(s) }
 	return []Scenario{
-		{Name: "w-basic", Endpoints: []Endpoint{{b("web"), 0}, {b("db"), 1}}, Requests: []Request{
+		{Name: "w-basic", Endpoints: []Endpoint{{Key: b("web"), Target: 0}, {Key: b("db"), Target: 1}}, Requests: []Request{
 			{"dispatch", b("forward:web")}, {"dispatch", b("forward:db")}, {"dispatch", b("forward:we")}, {"dispatch", b("forward:webx")},
 			{"dispatch", b("forward:WEB")}, {"dispatch", b("forward:web\x00")}, {"dispatch", b("forward:")}, {"dispatch", b("Forward:web")},
 			{"dispatch", b("forward")}, {"dispatch", b("web")}, {"direct", b("web")}, {"direct", b("")}, {"direct", b("forward:web")},
 			{"direct", b(strings.Repeat("a", 255))}, {"dispatch", b("forward:forward:web")}}},
-		{Name: "w-colon-suffixed-key-is-unknown", Endpoints: []Endpoint{{b("web"), 0}, {b("db"), 1}, {b("a:b"), 2}}, Requests: []Request{
+		{Name: "w-colon-suffixed-key-is-unknown", Endpoints: []Endpoint{{Key: b("web"), Target: 0}, {Key: b("db"), Target: 1}, {Key: b("a:b"), Target: 2}}, Requests: []Request{
 			{"dispatch", b("forward:web:admin")}, {"dispatch", b("forward:web:")}, {"dispatch", b("forward:web:8080")}, {"dispatch", b("forward::web")},
 			{"dispatch", b("forward:a:b")}, {"dispatch", b("forward:a")}, {"dispatch", b("forward:a:b:c")}, {"direct", b("web:admin")}, {"direct", b("a:b")}, {"direct", b("a")}}},
-		{Name: "w-duplicate-key-last-wins", Endpoints: []Endpoint{{b("web"), 0}, {b("web"), 1}, {b("Web"), 2}}, Requests: []Request{
+		// endpoints whose targets share a host NAME and differ in the port
+		{Name: "w-shared-host-name", Endpoints: []Endpoint{{Key: b("web"), Target: 0, Host: "localhost"}, {Key: b("db"), Target: 1, Host: "localhost"}, {Key: b("cache"), Target: 2, Host: "localhost"}, {Key: b("ip"), Target: 3, Host: ""}}, Requests: []Request{
+			{"dispatch", b("forward:web")}, {"dispatch", b("forward:db")}, {"direct", b("cache")}, {"direct", b("db")}, {"dispatch", b("forward:web")}, {"direct", b("ip")}, {"direct", b("cache")}}},
+		// configured keys AT length boundaries and requests that extend them
+		boundaryScenario("w-key-length-63-64-65", []int{63, 64, 65}),
+		boundaryScenario("w-key-length-31-32-33-128", []int{31, 32, 33, 128}),
+		boundaryScenario("w-key-length-246-247-254-255", []int{246, 247, 254, 255}),
+		{Name: "w-duplicate-key-last-wins", Endpoints: []Endpoint{{Key: b("web"), Target: 0}, {Key: b("web"), Target: 1}, {Key: b("Web"), Target: 2}}, Requests: []Request{
 			{"dispatch", b("forward:web")}, {"direct", b("web")}, {"direct", b("Web")}, {"direct", b("WEB")}}},
 		{Name: "w-no-endpoints", Requests: []Request{{"dispatch", b("forward:web")}, {"dispatch", b("forward:")}, {"direct", b("web")}}},
-		{Name: "w-empty-and-prefixed-keys", Endpoints: []Endpoint{{b(""), 0}, {b("forward:web"), 1}, {b("web\x00"), 2}}, Requests: []Request{
+		{Name: "w-empty-and-prefixed-keys", Endpoints: []Endpoint{{Key: b(""), Target: 0}, {Key: b("forward:web"), Target: 1}, {Key: b("web\x00"), Target: 2}}, Requests: []Request{
 			{"dispatch", b("forward:")}, {"direct", b("")}, {"dispatch", b("forward:forward:web")}, {"dispatch", b("forward:web")},
 			{"direct", b("web\x00")}, {"direct", b("web")}, {"dispatch", b("forward:web\x00")}}},
 	}
@@ -346,6 +423,16 @@ func main() {
 		e.sinks = append(e.sinks, s)
 	}
 	e.peer, _ = identity.NewAgentID()
+	if addrs, err := net.LookupHost("localhost"); err == nil {
+		for _, a := range addrs {
+			if a == "127.0.0.1" {
+				e.hostNames = true
+			}
+		}
+	}
+	if !e.hostNames {
+		c.Note("localhost does not resolve to 127.0.0.1 here: host-name targets are configured as IP literals")
+	}
 	run := func(sc Scenario) {
 		if p := vh.Recover(func() { e.runScenario(sc) }); p != "" {
 			c.Fail("panic", p, sc)
